@@ -811,7 +811,10 @@ theorem setHoldPoint_fold (p : Int) : ∀ (l done : List Proxy) (st : State),
           { st' with pool := (done ++ [x.reset (held := some true)]) ++ l.map (holdBeyond p),
                      tasksToHold := l.foldl (addHold p) st'.tasksToHold } :=
         fun st' h' => ih _ st' h' hdis' hnd'
-      rw [holdActive_spec st x, hres _ hput]
+      have hres' := hres { (st.put (x.reset (held := some true))) with
+        tasksToHold := if st.tasksToHold.contains (x.name, x.pt) then st.tasksToHold
+                       else st.tasksToHold ++ [(x.name, x.pt)] } hput
+      rw [holdActive_spec st x, hres']
       cases hc' : st.tasksToHold.contains (x.name, x.pt) with
       | true =>
         simp only [List.map_cons, List.foldl_cons, addHold, holdBeyond, hgt, if_true, hc', List.append_assoc,
@@ -840,7 +843,7 @@ theorem setHoldPoint_spec (s : State) (p : Int) (h : NoDup s) :
   unfold setHoldPoint
   simp only
   have := setHoldPoint_fold p s.pool [] { s with holdPoint := some p } (by simp) (by intro a ha; simp at ha) h
-  rw [this]
+  refine this.trans ?_
   simp
 
 end CylcModel.Sched2
